@@ -39,6 +39,13 @@ void RouterSession::addPins(Sh &sh, const Json &op) {
     }
 }
 void RouterSession::onReshape(Sh &, const Poly &, const Json &) {}
+bool RouterSession::reshapeKeepsPinsApart(const Sh &sh, const Poly &np) {
+    for (size_t a = 0; a < sh.pins.size(); a++) for (size_t b = a + 1; b < sh.pins.size(); b++) {
+        Pt pa = pinPos(sh.pins[a], np), pb = pinPos(sh.pins[b], np);
+        if (std::fabs(pa.x - pb.x) < 1e-9 && std::fabs(pa.y - pb.y) < 1e-9) return false;
+    }
+    return true;
+}
 
 bool RouterSession::extraOp(const Json &op, const std::string &o, std::string &ex, bool &edited) {
     auto guardedLocal = [&](const std::function<void()> &fn) -> std::string {
@@ -270,6 +277,14 @@ void RouterSession::checkPins(const char *when) {
             size_t pos = 0; bool ok = true; size_t missing = 0;
             for (size_t ci = 0; ci < c.checkpoints.size() && ok; ci++) {
                 Pt cp = c.checkpoints[ci];
+                // "If a checkpoint is unreachable because it lies inside an obstacle, then that checkpoint will be skipped" (connector.h):
+                // shapes (with their buffer) and the small rectangles of junctions are obstacles
+                bool inObstacle = false;
+                double bufd = params.count(P_buffer) ? params[P_buffer] : 0;
+                for (auto &sk2 : shapes) if (sk2.second.alive) { RectB b2 = bbox(sk2.second.poly); if (cp.x >= b2.x - bufd - 1e-9 && cp.x <= b2.x + b2.w + bufd + 1e-9 && cp.y >= b2.y - bufd - 1e-9 && cp.y <= b2.y + b2.h + bufd + 1e-9) inObstacle = true; }
+                for (auto &jk : junctions) if (jk.second.alive && std::fabs(jk.second.pt.x - cp.x) <= 1 + bufd && std::fabs(jk.second.pt.y - cp.y) <= 1 + bufd) inObstacle = true;
+                // (what becomes of the remaining checkpoints of such a connector is not documented: the connector is not judged)
+                if (inObstacle) { probe("router.checkpoint-inside-an-obstacle-connector-not-judged"); ok = true; pos = 0; break; }
                 bool hit = false;
                 for (size_t i = pos; i + 1 < r.size() && !hit; i++) if (ptSegDist(cp, r[i], r[i + 1]) < 1e-9) { hit = true; pos = i; }
                 if (!hit) { ok = false; missing = ci; }
@@ -473,7 +488,13 @@ static void genPins(SceneGen &sg, int id, Json &o, bool allowZeroInside) {
     add(1, 0.5, 1, true, inside, sidesAll ? 15 : sidesDefault ? 0 : 2, true);
     add(2, 0.5, 0.5, true, 0, 15, false);
     if (r.chance(0.5)) add(3, r.pick(std::vector<double>{0.25, 0.75}), 0, true, inside, r.chance(0.5) ? 1 : 15, r.chance(0.7));
-    else add(3, -1, 7, false, inside, r.chance(0.5) ? 8 : 15, r.chance(0.7));      // absolute: right edge, 7 below the top (never coincides with a side pin)
+    else {
+        // absolute: right edge, some way below the top (never coinciding with the side pin in the middle); sometimes exactly as far
+        // below the top as the shape is wide (offsets that happen to equal the other dimension)
+        double yoff = 7;
+        if (r.chance(0.4) && s.box.w < s.box.h - 5 && std::fabs(s.box.w - s.box.h / 2) > 1) yoff = s.box.w;
+        add(3, -1, yoff, false, inside, r.chance(0.5) ? 8 : 15, r.chance(0.7));
+    }
     o.set("pins", pins);
     s.pinsIds = {1, 1, 1, 1, 2, 3};
 }
